@@ -98,7 +98,9 @@ def _git(cwd, *args):
     return p.stdout.decode().strip()
 
 
-def _init_repo(path, branches):
+def _init_repo(path, branches, distinct=False):
+    """distinct: every branch gets a commit of its own changing the tracked file `content` (so that an uncommitted edit of that
+    file makes `git checkout <other branch>` fail)."""
     os.makedirs(path)
     _git(path, "init", "-q", "-b", "master")
     _git(path, "config", "user.email", "v@example.org")
@@ -106,14 +108,26 @@ def _init_repo(path, branches):
     with open(os.path.join(path, "README"), "w") as f:
         f.write("x\n")
     _git(path, "add", "README")
+    if distinct:
+        with open(os.path.join(path, "content"), "w") as f:
+            f.write("master\n")
+        _git(path, "add", "content")
     _git(path, "commit", "-q", "-m", "init")
     for b in branches:
         if b != "master":
             _git(path, "branch", b)
+            if distinct:
+                _git(path, "checkout", "-q", b)
+                with open(os.path.join(path, "content"), "w") as f:
+                    f.write(b + "\n")
+                _git(path, "commit", "-q", "-a", "-m", "content of " + b)
+                _git(path, "checkout", "-q", "master")
 
 
-def run_update(root, has_remote, R, L, T, v, rnd):
-    """Builds real repositories for (remote branches R, local branches L, tags T) and runs RallyRepository.update."""
+def run_update(root, has_remote, R, L, T, v, rnd, dirty=False):
+    """Builds real repositories for (remote branches R, local branches L, tags T) and runs RallyRepository.update.
+    dirty (needs has_remote, L = {master}): every remote branch has its own version of a tracked file, the working copy is on
+    master with an UNCOMMITTED edit of that file: checking out another branch fails."""
     from esrally import exceptions
     from esrally.utils import repo
 
@@ -122,7 +136,7 @@ def run_update(root, has_remote, R, L, T, v, rnd):
     vs = version_str(v, rnd)
     if has_remote:
         remote = os.path.join(root, "remote")
-        _init_repo(remote, [branch_str(b) for b in R])
+        _init_repo(remote, [branch_str(b) for b in R], distinct=dirty)
         rr = repo.RallyRepository(remote_url=remote, root_dir=os.path.join(root, "home"), repo_name="default", resource_name="tracks", offline=False)
         local = os.path.join(root, "home", "default")
         _git(local, "config", "user.email", "v@example.org")
@@ -139,9 +153,14 @@ def run_update(root, has_remote, R, L, T, v, rnd):
         _git(local, "checkout", "-q", "--detach", "master")
         _git(local, "commit", "-q", "--allow-empty", "-m", "tag " + branch_str(t))
         _git(local, "tag", "v" + branch_str(t))
-    # start from a detached HEAD on a commit of its own so that "nothing checked out" is distinguishable
-    _git(local, "checkout", "-q", "--detach", "master")
-    _git(local, "commit", "-q", "--allow-empty", "-m", "start")
+    if dirty:
+        _git(local, "checkout", "-q", "master")
+        with open(os.path.join(local, "content"), "w") as f:
+            f.write("uncommitted local edit\n")
+    else:
+        # start from a detached HEAD on a commit of its own so that "nothing checked out" is distinguishable
+        _git(local, "checkout", "-q", "--detach", "master")
+        _git(local, "commit", "-q", "--allow-empty", "-m", "start")
     try:
         rr.update(vs)
     except exceptions.RallyError:
@@ -279,6 +298,18 @@ def run(ctx, out):
         o = run_update(root, has_remote, R, L, T, v, rnd)
         git_items.append({"id": "g%d" % gi, "kind": "up", "hasRemote": has_remote, "R": R, "L": L, "T": T, "v": v, "out": o, "other_names": {"p": OTHER["p"], "q": OTHER["q"]}})
         out.add_case(("up", has_remote, sorted(map(branch_str, R)), sorted(map(branch_str, L)), sorted(map(branch_str, T)), v))
+    # ---- a working copy with uncommitted changes, left on master by an earlier run: Rally either ends on the documented best
+    # match or reports an error - it never goes on with another branch
+    for gi in range(16 if ctx.quick else 160):
+        a, c = rnd.choice(full), rnd.choice(states)
+        R = [dict(x) for x in a["B"] if x["k"] in ("v", "master")]
+        if not any(x["k"] == "master" for x in R):
+            R.append(dict(MASTER))
+        T = [dict(x) for x in c["B"] if x["k"] == "v"] if rnd.random() < 0.3 else []
+        v = dict(a["v"])
+        o = run_update(root, True, R, [dict(MASTER)], T, v, rnd, dirty=True)
+        git_items.append({"id": "d%d" % gi, "kind": "updirty", "hasRemote": True, "R": R, "L": [dict(MASTER)], "T": T, "v": v, "out": o, "other_names": {"p": OTHER["p"], "q": OTHER["q"]}})
+        out.add_case(("updirty", sorted(map(branch_str, R)), sorted(map(branch_str, T)), v))
     shutil.rmtree(root, ignore_errors=True)
     out.sample({"git": {"remote": sorted(map(branch_str, git_items[0]["R"])), "local": sorted(map(branch_str, git_items[0]["L"])), "tags": sorted(map(branch_str, git_items[0]["T"])), "version": git_items[0]["v"], "checked_out": git_items[0]["out"]}})
     out.extra["git_repositories"] = len(git_items)
@@ -304,7 +335,7 @@ def replay(ctx, case):
         it["out"] = call_best_match(it["B"], it["v"], rnd)
     else:
         OTHER.update(it.get("other_names", {}))
-        it["out"] = run_update(os.path.join(tlc.scratch("c15git"), "case"), it["hasRemote"], it["R"], it["L"], it["T"], it["v"], rnd)
+        it["out"] = run_update(os.path.join(tlc.scratch("c15git"), "case"), it["hasRemote"], it["R"], it["L"], it["T"], it["v"], rnd, dirty=it["kind"] == "updirty")
     v = tracecheck.validate("BranchMatch", "TraceBranchMatch", "TraceBranchMatch.cfg", [it], name="c15replay")
     for tid, fails in v.l1.items():
         print("VIOLATION property=C15 clause=%s result=%s" % (fails[0][1], it["out"]))
